@@ -95,6 +95,14 @@ def gen_world(rng, max_wrappers=5):
         if kind in ("prefix", "mcaller"):
             w["prefix"] = rng.choice(["/p", "/api/", "/v1", "/x/y"])
         wrappers.append(w)
+    if n_impl == 2 and not any(w.get("parent") == 1 for w in wrappers) and rng.random() < 0.5:
+        # the application sets up its second, independent connection with the adapters of a connection it has
+        # already: HttpConn(other_address, adapters=conn.adapters) - the public attribute, the very list object
+        cands = [j for j, w in enumerate(wrappers) if w["impl"] == 0 and j != 0 and not w["kind"].startswith("mcaller")
+                 and not w.get("failing") and not w.get("nested")]
+        if cands:
+            j = rng.choice(cands)
+            wrappers[1].update({"adopt": j, "auth": wrappers[j]["auth"], "idsetter": wrappers[j].get("idsetter")})
     return {"impls": impls, "wrappers": wrappers}
 
 
@@ -229,6 +237,7 @@ def build_world(spec):
     ch = hw.conn_http
     mh = hw.mcaller_http
     objs = []
+    adopt_later = []
     for w in spec["wrappers"]:
         kind = w["kind"]
         if kind == "base":
@@ -237,6 +246,8 @@ def build_world(spec):
                 o = ch.HttpConn(imp["addr"])
             else:
                 o = ch.HttpConn([imp["addr"], False])
+            if w.get("adopt") is not None:
+                adopt_later.append((len(objs), w))
         else:
             parent = objs[w["parent"]]
             if kind == "plain":
@@ -283,6 +294,12 @@ def build_world(spec):
             else:
                 raise ValueError(kind)
         objs.append(o)
+    for idx, w in adopt_later:
+        imp = spec["impls"][w["impl"]]
+        src = objs[w["adopt"] % len(objs)]
+        src = src.http_conn if hasattr(src, "http_conn") else src
+        conn_data = imp["addr"] if imp["ids"] else [imp["addr"], False]
+        objs[idx] = ch.HttpConn(conn_data, adapters=src.adapters)
     return objs
 
 
